@@ -267,17 +267,45 @@ theorem builder_pos_numbering (g : List Pos) (sw : List SysWord) (rows : List Ro
         ∃ wd, b.words[i]? = some wd ∧ (g ++ own)[wd.posId]? = some row.pos :=
   build_pos_numbering g sw rows b hnd hle h
 
-/-- End to end (builder + loader), the POS clause itself: a user dictionary compiled from `rows` against the system
-dictionary (POS list `sys`) and loaded as the (j+1)-th dictionary of any stack, under any plugin registrations:
-the word of row `i` is word `i` of dictionary `j+1` and its reported POS id names exactly the POS declared in row `i`. -/
-theorem declared_pos_reported (sys : List Pos) (sw : List SysWord) (sysLex : Lexicon) (plugs : List (Bool × Pos))
-    (us : List (List Pos × Lexicon)) (D : Dict) (hload : load sys sysLex plugs us = .ok D)
+/-- The REPAIRED user builder (`PreVariant.sysOnly`) numbers POS the way the loader expects whatever was registered in
+the build base after the system dictionary was read: over a base with POS list `sys ++ extra` (any `extra`) and
+`num_system_pos = |sys|`, the written own-POS table `own` reads back, there is one word per row, and the POS id stored
+for row `i` names the row's declared POS in `sys ++ own` — exactly the list `LexiconSet` rebases against
+(`pos_rebase_correct`); `extra` does not enter.  (The pinned builder numbers against `sys ++ extra ++ own`:
+`builder_pos_numbering` with `g = sys ++ extra`.) -/
+theorem builder_pos_numbering_repaired (sys extra : List Pos) (sw : List SysWord) (rows : List Row) (b : Built)
+    (hnd : sys.Nodup) (hle : sys.length ≤ 32768)
+    (h : buildUser .sysOnly ⟨sys ++ extra, sys.length, sw⟩ rows = .ok b) :
+    ∃ own, readPosTable b = .ok own ∧ b.words.length = rows.length ∧
+      ∀ (i : Nat) (row : Row), rows[i]? = some row →
+        ∃ wd, b.words[i]? = some wd ∧ (sys ++ own)[wd.posId]? = some row.pos :=
+  build_pos_numbering sys sw rows b hnd hle (by simpa [buildUser, preOf] using h)
+
+/-- The repair of finding P1 changes nothing for a dictionary compiled against the plainly loaded system dictionary
+(no plugin-registered POS in the base: `pos_list.len() = num_system_pos`): both versions of `new_user` hand the same
+POS list to the reader, so they compile every lexicon to the same result. -/
+theorem repair_same_on_plain_base (sys : List Pos) (sw : List SysWord) (rows : List Row) :
+    buildUser .sysOnly ⟨sys, sys.length, sw⟩ rows = buildUser .all ⟨sys, sys.length, sw⟩ rows := by
+  simp [buildUser, preOf]
+
+/-- End to end (builder + loader), the POS clause for a build base that is a PREFIX extension of the system list:
+the user dictionary is compiled by the REPAIRED `new_user` (`PreVariant.sysOnly`) against any dictionary whose POS list
+is `sys ++ extra` — `extra` = whatever was registered after the system dictionary was read, any number of entries — and
+whose `num_system_pos` is `|sys|`; it is loaded as the (j+1)-th dictionary of any stack over the same system
+dictionary, under any plugin registrations (not necessarily those of the build base).  Then the word of row `i` is
+word `i` of dictionary `j+1` and its reported POS id names exactly the POS declared in row `i`. -/
+theorem declared_pos_reported_prefix_base (sys extra : List Pos) (sw : List SysWord) (sysLex : Lexicon)
+    (plugs : List (Bool × Pos)) (us : List (List Pos × Lexicon)) (D : Dict)
+    (hload : load sys sysLex plugs us = .ok D)
     (hnd : sys.Nodup) (hle : sys.length ≤ 32768) (hsmall : D.posList.length ≤ 65536)
     (j : Nat) (rows : List Row) (b : Built) (own : List Pos) (lex : Lexicon)
-    (hb : build (some (sys, sw)) rows = .ok b) (hown : readPosTable b = .ok own) (hlex : lex.words = b.words)
+    (hb : buildUser .sysOnly ⟨sys ++ extra, sys.length, sw⟩ rows = .ok b)
+    (hown : readPosTable b = .ok own) (hlex : lex.words = b.words)
     (hj : us[j]? = some (own, lex)) (i : Nat) (row : Row) (hi : rows[i]? = some row) (hi28 : i < P28) :
     ∃ wi, D.set.getWordInfo (mkRaw (1 + j) i) = .ok wi ∧ D.posList[wi.posId]? = some row.pos := by
-  obtain ⟨own', hown', _, hall⟩ := build_pos_numbering sys sw rows b hnd hle hb
+  have hb' : build (some (sys, sw)) rows = .ok b := by
+    simpa [buildUser, preOf] using hb
+  obtain ⟨own', hown', _, hall⟩ := build_pos_numbering sys sw rows b hnd hle hb'
   rw [hown] at hown'
   have : own = own' := Outcome.ok.inj hown'
   subst this
@@ -289,11 +317,53 @@ theorem declared_pos_reported (sys : List Pos) (sw : List SysWord) (sysLex : Lex
   · rw [(hsys hlt).2, ← hpos, List.getElem?_append_left hlt]
   · have hge : sys.length ≤ wd.posId := by omega
     have hbound : wd.posId < (sys ++ own).length := by
-      by_cases hb' : wd.posId < (sys ++ own).length
-      · exact hb'
+      by_cases hb'' : wd.posId < (sys ++ own).length
+      · exact hb''
       · rw [List.getElem?_eq_none (by omega)] at hpos; cases hpos
     have hown_lt : wd.posId - sys.length < own.length := by simp at hbound; omega
     rw [((husr hge).2 hown_lt hsmall).2, ← hpos, List.getElem?_append_right hge]
+
+/-- The POS clause itself, full strength, for the REPAIRED builder: "its part of speech is exactly the part-of-speech
+strings declared for it ... also when OOV plugins register further ones" — with NO restriction on the dictionary the
+user dictionary was compiled against.  The build base `B` is the system dictionary loaded by `from_cfg_storage` with ANY
+plugin configuration `basePlugs` (registering any number Q ≥ 0 of POS) and even any user dictionaries `baseUsers`;
+`new_user(B)` reads `B.grammar().pos_list` and `B.lexicon().num_system_pos()`.  The compiled dictionary is then loaded
+as the (j+1)-th dictionary of any stack over the same system dictionary under any plugin configuration `plugs`:
+the word of row `i` is word `i` of dictionary `j+1` and its reported POS id names exactly the POS declared in row `i`.
+(False for the pinned builder as soon as Q ≥ 1: `plugin_base_counterexample`.) -/
+theorem declared_pos_reported (sys : List Pos) (sw : List SysWord) (sysLex : Lexicon) (plugs : List (Bool × Pos))
+    (us : List (List Pos × Lexicon)) (D : Dict) (hload : load sys sysLex plugs us = .ok D)
+    (hnd : sys.Nodup) (hle : sys.length ≤ 32768) (hsmall : D.posList.length ≤ 65536)
+    (baseLex : Lexicon) (basePlugs : List (Bool × Pos)) (baseUsers : List (List Pos × Lexicon)) (B : Dict)
+    (hbase : load sys baseLex basePlugs baseUsers = .ok B)
+    (j : Nat) (rows : List Row) (b : Built) (own : List Pos) (lex : Lexicon)
+    (hb : buildUser .sysOnly ⟨B.posList, B.set.numSystemPos, sw⟩ rows = .ok b)
+    (hown : readPosTable b = .ok own) (hlex : lex.words = b.words)
+    (hj : us[j]? = some (own, lex)) (i : Nat) (row : Row) (hi : rows[i]? = some row) (hi28 : i < P28) :
+    ∃ wi, D.set.getWordInfo (mkRaw (1 + j) i) = .ok wi ∧ D.posList[wi.posId]? = some row.pos := by
+  obtain ⟨bplug, _, _, _, hBpos, hBnsp, _⟩ := load_spec sys baseLex basePlugs baseUsers B hbase
+  rw [hBpos, hBnsp, List.append_assoc] at hb
+  exact declared_pos_reported_prefix_base sys (bplug ++ (baseUsers.map (·.1)).flatten) sw sysLex plugs us D hload
+    hnd hle hsmall j rows b own lex hb hown hlex hj i row hi hi28
+
+/-- The same clause for the PINNED builder (`PreVariant.all`, the code as it stands) holds only under the restriction
+"compiled against the plainly loaded system dictionary" (`pos_list.len() = num_system_pos`, no plugin-registered POS
+in the build base); stated for both versions of the builder, which coincide there. -/
+theorem declared_pos_reported_plain_base (v : PreVariant) (sys : List Pos) (sw : List SysWord) (sysLex : Lexicon)
+    (plugs : List (Bool × Pos))
+    (us : List (List Pos × Lexicon)) (D : Dict) (hload : load sys sysLex plugs us = .ok D)
+    (hnd : sys.Nodup) (hle : sys.length ≤ 32768) (hsmall : D.posList.length ≤ 65536)
+    (j : Nat) (rows : List Row) (b : Built) (own : List Pos) (lex : Lexicon)
+    (hb : buildUser v ⟨sys, sys.length, sw⟩ rows = .ok b) (hown : readPosTable b = .ok own) (hlex : lex.words = b.words)
+    (hj : us[j]? = some (own, lex)) (i : Nat) (row : Row) (hi : rows[i]? = some row) (hi28 : i < P28) :
+    ∃ wi, D.set.getWordInfo (mkRaw (1 + j) i) = .ok wi ∧ D.posList[wi.posId]? = some row.pos := by
+  have hb' : buildUser .sysOnly ⟨sys ++ [], sys.length, sw⟩ rows = .ok b := by
+    rw [List.append_nil]
+    cases v with
+    | all => rw [repair_same_on_plain_base]; exact hb
+    | sysOnly => exact hb
+  exact declared_pos_reported_prefix_base sys [] sw sysLex plugs us D hload hnd hle hsmall j rows b own lex hb' hown hlex
+    hj i row hi hi28
 
 /-! ## system words -/
 
@@ -323,8 +393,8 @@ theorem system_unaffected (sys : List Pos) (sysLex : Lexicon) (plugs : List (Boo
 
 /-! ## finding: a user dictionary compiled against a dictionary whose plugins registered POS -/
 
-/-- The POS clause is FALSE on the unchanged code when the user dictionary was compiled with
-`DictBuilder::new_user(dic)` over a dictionary loaded with a `userPOS: allow` plugin that registered a POS:
+/-- The POS clause is FALSE for the pinned builder (`PreVariant.all`, the unchanged code) when the user dictionary was
+compiled with `DictBuilder::new_user(dic)` over a dictionary loaded with a `userPOS: allow` plugin that registered a POS:
 `preload_pos` takes the whole POS list of that dictionary (system + plugin POS, here 2 entries) as "system POS", so
 the user's own POS gets build-time id 2, while the loader rebases with the system count taken *before* the plugins
 (1).  Witness: system POS `[P0]`, plugin POS `X`, one user row with the new POS `Y`: the word is reported with POS id 3
@@ -334,16 +404,16 @@ theorem plugin_base_counterexample :
     let P0 : Pos := [0, 0, 0, 0, 0, 0]
     let X : Pos := [1, 0, 0, 0, 0, 0]
     let Y : Pos := [2, 0, 0, 0, 0, 0]
-    -- the dictionary the builder is given: system POS + the plugin's POS
-    loadPlugins [P0] [(true, X)] = .ok ([P0, X], [1]) ∧
+    -- the dictionary the builder is given: system POS + the plugin's POS, `num_system_pos` = 1
+    (∃ B, load [P0] ⟨[], 255, []⟩ [(true, X)] [] = .ok B ∧ B.posList = [P0, X] ∧ B.set.numSystemPos = 1) ∧
     -- the compiled user dictionary: own POS table `[Y]`, the rows carry the build-time ids 2 and 1
-    build (some ([P0, X], [])) [⟨10, 10, 10, 0, Y, [], [], []⟩, ⟨11, 11, 11, 0, X, [], [], []⟩] =
+    buildUser .all ⟨[P0, X], 1, []⟩ [⟨10, 10, 10, 0, Y, [], [], []⟩, ⟨11, 11, 11, 0, X, [], [], []⟩] =
       .ok ⟨1, [Y], [⟨2, [], [], []⟩, ⟨1, [], [], []⟩]⟩ ∧
     ∃ D, load [P0] ⟨[], 255, []⟩ [(true, X)] [([Y], ⟨[⟨2, [], [], []⟩, ⟨1, [], [], []⟩], 255, []⟩)] = .ok D ∧
       D.posList = [P0, X, Y] ∧
       D.set.getWordInfo (mkRaw 1 0) = .ok ⟨3, [], [], []⟩ ∧ D.posList[3]? = none ∧
       D.set.getWordInfo (mkRaw 1 1) = .ok ⟨2, [], [], []⟩ ∧ D.posList[2]? = some Y := by
-  refine ⟨by decide, by decide, _, rfl, ?_⟩
+  refine ⟨⟨_, rfl, by decide, by decide⟩, by decide, _, rfl, ?_⟩
   decide
 
 /-! ## non-vacuity -/
@@ -359,6 +429,25 @@ example :
       D.set.getWordInfo (mkRaw 2 0) = .ok ⟨5, [], [], []⟩ ∧
       D.set.getWordInfo (mkRaw 2 1) = .ok ⟨1, [], [], []⟩ := by
   refine ⟨_, rfl, ?_⟩
+  decide
+
+/-- the hypotheses of `declared_pos_reported` are satisfiable with Q = 1 and the repaired builder gets the witness of
+`plugin_base_counterexample` right: same base (system POS `[P0]`, plugin POS `X`, `num_system_pos` = 1), same rows; the
+reader is preloaded with `[P0]` only, the own table is `[Y, X]`, the stored ids are 1 and 2, and after loading under
+the same plugin the two words report ids 2 and 3 of the list `[P0, X, Y, X]`: `Y` and `X`, as declared. -/
+example :
+    let P0 : Pos := [0, 0, 0, 0, 0, 0]
+    let X : Pos := [1, 0, 0, 0, 0, 0]
+    let Y : Pos := [2, 0, 0, 0, 0, 0]
+    ([P0] : List Pos).Nodup ∧
+    (∃ B, load [P0] ⟨[], 255, []⟩ [(true, X)] [] = .ok B ∧
+      buildUser .sysOnly ⟨B.posList, B.set.numSystemPos, []⟩ [⟨10, 10, 10, 0, Y, [], [], []⟩, ⟨11, 11, 11, 0, X, [], [], []⟩] =
+        .ok ⟨2, [Y, X], [⟨1, [], [], []⟩, ⟨2, [], [], []⟩]⟩) ∧
+    ∃ D, load [P0] ⟨[], 255, []⟩ [(true, X)] [([Y, X], ⟨[⟨1, [], [], []⟩, ⟨2, [], [], []⟩], 255, []⟩)] = .ok D ∧
+      D.posList = [P0, X, Y, X] ∧
+      D.set.getWordInfo (mkRaw 1 0) = .ok ⟨2, [], [], []⟩ ∧ D.posList[2]? = some Y ∧
+      D.set.getWordInfo (mkRaw 1 1) = .ok ⟨3, [], [], []⟩ ∧ D.posList[3]? = some X := by
+  refine ⟨by decide, ⟨_, rfl, by decide⟩, _, rfl, ?_⟩
   decide
 
 /-- the builder hypotheses are satisfiable and the numbering is the expected one: base POS `[[1],[2]]`; the first row
